@@ -286,6 +286,7 @@ func (r *Reader) initFields() error {
 			// Ignore this for avoiding infinite loop of the reference.
 			// The example case where this can occur is when tar contains the root
 			// directory itself (e.g. "./", "/").
+			ent.NumLink++ // no parent entry references the root but it has the same link count as an implicit root.
 			continue
 		}
 		pdir := r.getOrCreateDir(pdirName)
